@@ -208,6 +208,20 @@ OnBucket(e) ==
                   ELSE RowChk({s \in S : ~(e.sfi[s] = s /\ e.ns[s] = Max(s, e.minel))},
                               "C19", "IdentityBucketExact", head, D)))
 
+(* ... over the whole 64-bit range (power-of-two policy): for s = 2^k + (d - 1), k = 3..62, the node size named for   *)
+(* s is the power of two 2^k (s <= 2^k) or 2^(k+1) (s = 2^k + 1), and it maps back to its own bucket.                  *)
+(* lg = floor(log2(node size)) + 1, p2 = the node size is a power of two (sizes beyond TLC's integers: see the driver)  *)
+OnBucketBig(e) ==
+  LET I == 1..Len(e.k)
+      D(i) == <<e.k[i], e.d[i] - 1, e.lg[i] - 1, e.p2[i], e.rt[i]>>
+      want(i) == IF e.d[i] = 2 THEN e.k[i] + 1 ELSE e.k[i]
+  IN IF Len(e.d) # Len(e.k) \/ Len(e.lg) # Len(e.k) \/ Len(e.p2) # Len(e.k) \/ Len(e.rt) # Len(e.k) \/ Len(e.k) = 0
+     THEN Result(Seen, {V("X", "RowShape", <<"bucketbig">>)})
+     ELSE Result(Seen,
+            RowChk({i \in I : ~(e.p2[i] = 1 /\ e.lg[i] - 1 >= want(i))}, "C19", "BucketHoldsSize", <<"log2", "64-bit range">>, D)
+            \cup RowChk({i \in I : ~(e.lg[i] - 1 <= want(i))}, "C19", "Log2BucketLessThanTwice", <<"log2", "64-bit range">>, D)
+            \cup RowChk({i \in I : e.rt[i] # 1}, "C19", "BucketHoldsSize", <<"log2", "node size maps to another bucket">>, D))
+
 -----------------------------------------------------------------------------
 (* C18: min_block_size.  mbs[i]: memory_pool<pool>::min_block_size(ns, n), n = n0 + i - 1;          *)
 (* got[i]: nodes a pool constructed with that block size handed out before its upstream was asked  *)
@@ -251,6 +265,7 @@ Apply(e) ==
   CASE e.e = "fn" -> OnFn(e)
     [] e.e = "bnd" -> OnBnd(e)
     [] e.e = "bucket" -> OnBucket(e)
+    [] e.e = "bucketbig" -> OnBucketBig(e)
     [] e.e = "mbs" -> OnMbs(e)
     [] e.e = "stk" -> OnStk(e)
     [] e.e = "end" -> OnEnd(e)
